@@ -16,7 +16,9 @@ model = {"prog": [[action, ...], ...],   # prog[0] = construct_model body, prog[
          "lst": [[action, ...], ...],    # body of user listener l (performed inside notify)
          "subs": [[et, l], ...],         # subscriptions made in construct_model, in this order
          "stats": [[key, kind, sid], ...],  # kind: counter | tally | persistent, listening to data stream sid
-         "streams": [[name, seed], ...], "stream_mode": "new" | "setseed",
+         "streams": [[name, seed], ...], "stream_mode": "new" | "setseed" | "updater",
+         "updater": {"kind": "seed"|"simple", "seeds": {name: [seed of replication 0, 1, ...]}, "nr": replication number,
+                     "container": "dict"|"si", "explicit_fallback": bool},
          "pre": [[time, prio, h, "early"|"late"], ...]}   # SimEvent objects built before initialize (see build_early)
 action = ["sched", mode, prio, h] | ["cancel", k] | ["fail"] | ["cmd", cmd] | ["obs", sid, v]
        | ["obsd", sid, stream, lo, hi] | ["obsf", sid, stream] | ["fire", et] | ["sub", et, l] | ["unsub", et, l]
@@ -172,7 +174,7 @@ def run_case(case, name, early=None):
     from pydsol.core.pubsub import EventListener, EventProducer, EventType
     from pydsol.core.simulator import (DEVSSimulatorFloat, DEVSSimulatorInt, DEVSSimulatorDuration,
                                        ErrorStrategy)
-    from pydsol.core.streams import MersenneTwister
+    from pydsol.core.streams import MersenneTwister, StreamInformation, StreamSeedUpdater, SimpleStreamUpdater
     from pydsol.core.simevent import SimEvent
     from pydsol.core import statistics as S
     from pydsol.core.units import Duration
@@ -339,6 +341,24 @@ def run_case(case, name, early=None):
                 early["fwd"].model = self
             if spec.get("stream_mode", "new") == "setseed":
                 self.streams = {nm: MersenneTwister(sd) for nm, sd in spec.get("streams", [])}
+            elif spec.get("stream_mode") == "updater":
+                # the library's seed management: the streams live as long as the model (in a dict or a
+                # StreamInformation), an updater sets their seeds for the replication number before each replication
+                up = spec["updater"]
+                objs = {nm: MersenneTwister(sd) for nm, sd in spec.get("streams", [])}
+                if up.get("container") == "si":
+                    si = StreamInformation(MersenneTwister(10))
+                    for nm, o in objs.items():
+                        si.add_stream(nm, o)
+                    self.streams = si.get_streams()
+                else:
+                    self.streams = objs
+                if up["kind"] == "simple":
+                    self.updater = SimpleStreamUpdater()
+                else:
+                    self.updater = StreamSeedUpdater({k: list(v) for k, v in up.get("seeds", {}).items()})
+                    if up.get("explicit_fallback"):
+                        self.updater.set_fallback_stream_updater(SimpleStreamUpdater())
 
         def construct_model(self):
             spec = self.spec
@@ -350,6 +370,8 @@ def run_case(case, name, early=None):
             if spec.get("stream_mode", "new") == "setseed":
                 for nm, sd in spec.get("streams", []):
                     self.streams[nm].set_seed(sd)
+            elif spec.get("stream_mode") == "updater":
+                self.updater.update_seeds(self.streams, spec["updater"]["nr"])
             else:
                 self.streams = {nm: MersenneTwister(sd) for nm, sd in spec.get("streams", [])}
             # producers, listeners and statistics are built anew, as the documentation's examples do
